@@ -53,7 +53,7 @@ package fasthttp
 
 // parseContentLength: exactly the all-digit strings whose value fits an int, with that value (on top of parseUintBuf).
 //@ func parseContentLength results v err
-//@   property C01 C30
+//@   property C01 C30 C08
 //@   pure
 //@   ensures[exact] err == nil ==> len(b) > 0 && alldigits(b, len(b)) && v == decval(b, len(b)) && v >= 0
 //@   ensures[errval] err != nil ==> v == -1
